@@ -138,7 +138,11 @@ pub fn boundary_sizes(all: bool) -> Vec<u32> {
     }
     let mut v: Vec<u32> = (0..=80).collect();
     v.extend(4060..=4110);
+    // the buffer-size integer changes width at 255/256 (and 65535/65536, added by the callers)
+    v.extend(225..=275);
     v.extend((81..4060).step_by(53));
+    v.sort();
+    v.dedup();
     v
 }
 
@@ -161,6 +165,15 @@ pub fn run(ctx: &Ctx) {
         // nested twice: inner growth changes the outer PkgLength width
         for n in [40u32, 55, 56, 57, 58, 59, 60, 61, 62, 4070, 4080, 4085, 4086, 4087, 4088, 4089, 4090, 4091] {
             cases.push(Term::Scope(p1("OUT0"), vec![Term::Method(p1("MID0"), 0, false, vec![sized_object(k, n)])]));
+        }
+    }
+    // 64 KiB: the embedded size integers go from word to dword
+    for k in 0..SIZED_KINDS.len() {
+        for n in 65_515u32..=65_545 {
+            if ctx.quick() && n % 2 == 0 && !(65_528..=65_538).contains(&n) {
+                continue;
+            }
+            cases.push(sized_object(k, n));
         }
     }
     let big: Vec<u32> = if ctx.quick() { vec![(1 << 20) - 8, (1 << 20) - 1, (1 << 20) + 3] } else { ((1 << 20) - 12..(1 << 20) + 12).collect() };
